@@ -16,7 +16,7 @@ func init() {
 	register("C11", checkC11)
 	describe("C11", Meta{
 		Technique: "struct-to-JSON-mirror field coverage computed from the SSA store/load sets of Jsoner/Dejsoner (persistent fields are derived from who stores them, not listed), reply-style path counting for name-resolved slots, and effect confinement of the load path (no hidden package-level state)",
-		Claim:     "Decides structural clauses of C11: (a) every field of Machine/Bondmachine (through embedding) that some front-end or API stores — i.e. not only written inside the HDL-generation call tree or by simulator code — is read by Jsoner and written by Dejsoner, and every field of the JSON mirror is written by Jsoner and read by Dejsoner; (c) every slot of a name-resolved slice is assigned on every non-failing path of Dejsoner; (d) Jsoner/Dejsoner and their callees write no package-level state other than through the registry constructors (EventuallyCreate*), so a load is a function of the JSON and the registries. Necessary conditions for a lossless round trip; value fidelity, byte-identical re-save and regenerated Verilog equality are not decided.",
+		Claim:     "Decides structural clauses of C11: (a) every field of Machine/Bondmachine (through embedding) that some front-end or API stores — i.e. not only written inside the HDL-generation call tree or by simulator code — is read by Jsoner and written by Dejsoner, and every field of the JSON mirror is written by Jsoner and read by Dejsoner; (c) every slot of a name-resolved slice is assigned on every non-failing path of Dejsoner; (d) Jsoner/Dejsoner and their callees write no package-level state other than through the registry constructors (EventuallyCreate*), so a load is a function of the JSON and the registries. (d) ORDER: Jsoner/Dejsoner and what they call do not sort, compact or reverse any list (positions in the lists are referred to by other lists and by the generated HDL). Necessary conditions for a lossless round trip; value fidelity, byte-identical re-save and regenerated Verilog equality are not decided.",
 		Note:      "Call-graph reachability (CHA) decides which stores are 'derived' (HDL generation / VM code). Aliasing of slices between the saved form and the live machine is reported as information only.",
 		DesignRef: "DESIGN.md §2 C11",
 	})
@@ -291,6 +291,8 @@ func checkC11(r *core.Run) {
 
 		// (c) name-resolved slots
 		c11Slots(r, prog, p)
+		// (d) order
+		c11Order(r, prog, p)
 	}
 	r.Count("live_fields", nLive)
 	r.Count("mirror_fields", nMirror)
@@ -375,7 +377,23 @@ func c11Slots(r *core.Run, prog *core.Program, p c11Pair) {
 				pi.undecided = func(pos token.Pos, what string) { undec = what }
 				in := pset{}
 				in.add(pstate{flags: map[types.Object]bool{}})
-				out := pi.block(rs.Body.List, in)
+				body := rs.Body.List
+				// `if v == nil { continue }` on the range value: the source element is nil and the slot
+				// keeps its zero value, which is the same thing
+				if vid, ok := rs.Value.(*ast.Ident); ok && len(body) > 0 {
+					if ifs, ok := body[0].(*ast.IfStmt); ok && ifs.Else == nil && ifs.Init == nil && len(ifs.Body.List) == 1 {
+						if br, ok := ifs.Body.List[0].(*ast.BranchStmt); ok && br.Tok == token.CONTINUE {
+							if be, ok := ast.Unparen(ifs.Cond).(*ast.BinaryExpr); ok && be.Op == token.EQL {
+								x, xok := ast.Unparen(be.X).(*ast.Ident)
+								y, yok := ast.Unparen(be.Y).(*ast.Ident)
+								if xok && yok && ((info.ObjectOf(x) == info.ObjectOf(vid) && y.Name == "nil") || (info.ObjectOf(y) == info.ObjectOf(vid) && x.Name == "nil")) {
+									body = body[1:]
+								}
+							}
+						}
+					}
+				}
+				out := pi.block(body, in)
 				ends := pset{}
 				ends.addAll(out.normal)
 				for _, ss := range out.cont {
@@ -401,5 +419,72 @@ func c11Slots(r *core.Run, prog *core.Program, p c11Pair) {
 			return true
 		})
 		r.Count("name_resolved_slot_loops", n)
+	})
+}
+
+
+// c11Order (C11/ORDER): every persisted list of a machine is an index space (processors, domains,
+// shared objects, links, opcodes: other lists refer to its elements by position, and the position of a
+// shared object in a processor's list is its local number in the generated HDL). Saving and loading
+// must therefore keep the order it finds: Jsoner / Dejsoner and the functions of their package they
+// call may not sort, compact or reverse.
+func c11Order(r *core.Run, prog *core.Program, p c11Pair) {
+	pk := prog.Pkg(p.rel)
+	info := pk.TypesInfo
+	decls := map[types.Object]*ast.FuncDecl{}
+	core.FuncDecls(pk, func(_ *ast.File, fd *ast.FuncDecl) {
+		if o := info.Defs[fd.Name]; o != nil {
+			decls[o] = fd
+		}
+	})
+	reorders := func(c types.Object) bool {
+		if c == nil || c.Pkg() == nil {
+			return false
+		}
+		switch c.Pkg().Path() {
+		case "sort":
+			return c.Name() != "Search" && !strings.HasPrefix(c.Name(), "Search") && !strings.HasSuffix(c.Name(), "AreSorted") && !strings.HasPrefix(c.Name(), "Is")
+		case "slices":
+			return strings.HasPrefix(c.Name(), "Sort") || strings.HasPrefix(c.Name(), "Compact") || c.Name() == "Reverse"
+		}
+		return false
+	}
+	core.FuncDecls(pk, func(_ *ast.File, fd *ast.FuncDecl) {
+		rn := core.RecvTypeName(info, fd)
+		isJ := fd.Name.Name == "Jsoner" && rn == p.live
+		isD := fd.Name.Name == "Dejsoner" && rn == p.mirror
+		if !isJ && !isD {
+			return
+		}
+		seen := map[*ast.FuncDecl]bool{}
+		var bad []string
+		var visit func(f *ast.FuncDecl, depth int)
+		visit = func(f *ast.FuncDecl, depth int) {
+			if seen[f] || depth > 3 {
+				return
+			}
+			seen[f] = true
+			ast.Inspect(f.Body, func(n ast.Node) bool {
+				call, ok := n.(*ast.CallExpr)
+				if !ok {
+					return true
+				}
+				c := core.CalleeOf(info, call)
+				if reorders(c) {
+					bad = append(bad, fmt.Sprintf("%s.%s at %s", c.Pkg().Name(), c.Name(), r.Rel(prog.Pos(call.Pos()))))
+				}
+				if d, ok := decls[c]; ok {
+					visit(d, depth+1)
+				}
+				return true
+			})
+		}
+		visit(fd, 0)
+		inst := fmt.Sprintf("C11/ORDER:%s.%s", rn, fd.Name.Name)
+		if len(bad) == 0 {
+			r.OK("C11/ORDER", inst, prog.Pos(fd.Pos()), "saving/loading keeps the order of every list")
+		} else {
+			r.Violation("C11/ORDER", inst, prog.Pos(fd.Pos()), fmt.Sprintf("%s.%s reorders a list while converting the machine (%s): the lists of a machine are index spaces — positions are referred to by links, by Shared_links and by the generated HDL (the n-th shared object of a processor is its local object n) — so a machine whose list was not already in that order is a different machine after save+load", rn, fd.Name.Name, strings.Join(bad, "; ")))
+		}
 	})
 }
